@@ -9,7 +9,7 @@ TRACE_MOD = "LiquidVestingTrace.tla"
 
 MANIFEST_ENTRY = dict(engine="LiquidVesting", design="§4 C11",
    technique="TLA+ spec LiquidVesting.tla (on Schedule.tla): TLC exhaustive checking of the split transcription on the whole small input space and of the ledger invariants / step clauses on all accepted message histories of the as-built machine; TLC-simulated behaviours and seeded random large histories executed on the real liquidvesting, vesting, bank and erc20 message servers; every recorded helper output and every recorded step validated by TLC against the property layer (trace validation)",
-   text="The split of a lockup schedule (SubtractAmountFromPeriods) is proved exact on every period list of up to 4 periods with amounts 0..4 and every requested amount, on the model and, line by line, on the real function (plus seeded 10^18-scale inputs of up to 8 periods). Liquidate / transfer / redeem histories over three holders with scripted block times are explored exhaustively on the as-built machine (backing, schedule-sums-to-supply, exact split by release instants, no-early-unlock on redeem compared at every critical instant) and replayed on the real keepers, whose stores (module balance, liquid supply and holdings incl. the ERC20 side, Denom records, vesting account records) are projected after every message and checked by TLC.",
+   text="The split of a lockup schedule (SubtractAmountFromPeriods) is proved exact on every period list of up to 4 periods with amounts 0..4 and every requested amount, on the model and, line by line, on the real function (plus seeded 10^18-scale inputs of up to 8 periods). Liquidate / transfer / redeem histories over three holders with scripted block times are explored exhaustively on the as-built machine (backing, schedule-sums-to-supply, exact split by release instants, no-early-unlock on redeem compared at every critical instant) and replayed on the real keepers, whose stores (module balance, liquid supply and holdings incl. the ERC20 side, Denom records, vesting account records) are projected after every message and checked by TLC; after every redeem the recipient account object itself is asked what it locks at every critical instant (start/end time rule included) and the no-early-unlock clause is evaluated on those answers too; histories contain restarts of the module from its own exported genesis (after full redeems of older tokens), after which the same invariants and clauses apply.",
    note="Bounded by the constants in specs/LiquidVesting_*.cfg; messages run through MsgServiceRouter handlers on a cached context (baseapp.runMsgs semantics) with scripted block times, not through full DeliverTx; recipients have no delegations; locked amounts are derived from the recorded schedules through the denotation of Schedule.tla (the bank's own LockedCoins at the block time is compared as a diagnostic); TLC, the Json community module and the BigNum override are trusted.")
 
 # regression scenario of finding F2 (merge_min_start, repaired in /repo by c3dec7b; on a tree that has
@@ -43,6 +43,32 @@ REPRO_F17 = {
         {"ev": "liquidate", "args": {"from": "a1", "to": "a1", "amt": "5", "t": 1}},
         {"ev": "redeem", "args": {"from": "a1", "to": "a2", "denom": "aLIQUID0", "amt": "5", "t": 5}},
     ]}
+
+
+# regression history for the genesis round trip: three liquidations, the OLDEST token fully redeemed
+# (its record is deleted: an id gap below live tokens), a restart of the module from its exported
+# genesis, then redeems of the newer tokens
+REG_RESTART = {
+    "cfg": {"seed": 23, "minLiq": "1", "accts": {
+        "a1": {"kind": "vesting", "start": 0, "lockup": [{"len": 4, "amt": {"aISLM": "6"}}, {"len": 4, "amt": {"aISLM": "6"}}]},
+        "a2": {"kind": "plain", "extra": "3"},
+        "a3": {"kind": "none"}}},
+    "steps": [
+        {"ev": "liquidate", "args": {"from": "a1", "to": "a1", "amt": "2", "t": 1}},
+        {"ev": "liquidate", "args": {"from": "a1", "to": "a2", "amt": "3", "t": 2}},
+        {"ev": "liquidate", "args": {"from": "a1", "to": "a1", "amt": "4", "t": 2}},
+        {"ev": "redeem", "args": {"from": "a1", "to": "a3", "denom": "aLIQUID0", "amt": "2", "t": 3}},
+        {"ev": "export_import", "args": {"t": 3}},
+        {"ev": "redeem", "args": {"from": "a2", "to": "a2", "denom": "aLIQUID1", "amt": "1", "t": 4}},
+        {"ev": "export_import", "args": {"t": 5}},
+        {"ev": "redeem", "args": {"from": "a1", "to": "a3", "denom": "aLIQUID2", "amt": "4", "t": 5}},
+        {"ev": "redeem", "args": {"from": "a2", "to": "a1", "denom": "aLIQUID1", "amt": "2", "t": 9}},
+    ]}
+
+
+def _gap(state):
+    ex = [d["exists"] for d in state["denoms"]]
+    return any((not ex[i]) and any(ex[i + 1:]) for i in range(len(ex)))
 
 
 def _validate(wd):
@@ -79,6 +105,7 @@ def _redeem_kind(prev, args):
 
 def _coverage(path, c):
     cov = dict(liquidate_ok=0, liquidate_other_ok=0, transfer_ok=0, redeem_partial_ok=0, redeem_full_ok=0,
+               restarts=0, restarts_with_gap=0, redeem_after_restart_with_gap=0, redeem_into_shorter_lived=0,
                rejected=0, splits_ok=0, splits_rejected=0, splits_with_residue=0, helper_lines=0, redeem_into={})
     prev = None
     with open(path) as fh:
@@ -87,6 +114,7 @@ def _coverage(path, c):
             ev = o["ev"]
             if ev == "reset":
                 prev = o["post"]
+                gapped = False
                 continue
             if ev == "pure":
                 if o["fn"] == "subtract":
@@ -103,7 +131,12 @@ def _coverage(path, c):
                 else:
                     cov["helper_lines"] += 1
                 continue
-            if not o["ok"]:
+            if ev == "export_import":
+                cov["restarts"] += 1 if o["ok"] else 0
+                if o["ok"] and _gap(prev):
+                    cov["restarts_with_gap"] += 1
+                    gapped = True
+            elif not o["ok"]:
                 cov["rejected"] += 1
             elif ev == "liquidate":
                 cov["liquidate_ok"] += 1
@@ -114,6 +147,11 @@ def _coverage(path, c):
                 d = [d for d in o["post"]["denoms"] if d["id"] == o["args"]["denom"]]
                 full = bool(d) and not d[0]["exists"]
                 cov["redeem_full_ok" if full else "redeem_partial_ok"] += 1
+                cov["redeem_after_restart_with_gap"] += 1 if gapped else 0
+                ra = prev["acct"].get(o["args"]["to"])
+                pd = [x for x in prev["denoms"] if x["id"] == o["args"]["denom"]]
+                if ra and ra["kind"] == "vesting" and pd and ra["end"] < pd[0]["end"] and o["args"]["t"] < pd[0]["end"]:
+                    cov["redeem_into_shorter_lived"] += 1
                 k = _redeem_kind(prev, o["args"])
                 cov["redeem_into"][k] = cov["redeem_into"].get(k, 0) + 1
                 if len(c.samples) < 5 and k == "both-running":
@@ -164,12 +202,13 @@ def run(c):
     nscripts = 100 if quick else 1200
     scripts = []
     for cfg in ("LiquidVesting_sim.cfg", "LiquidVesting_sim2.cfg", "LiquidVesting_sim3.cfg"):
-        sc, _ = tlc_scripts(wd, "LiquidVesting.tla", cfg, nscripts, 7, c.seed)
+        sc, _ = tlc_scripts(wd, "LiquidVesting.tla", cfg, nscripts, 8, c.seed)
         if len(sc) < nscripts // 2:
             raise Infra("too few scripts generated from %s: %d" % (cfg, len(sc)))
         scripts += [{"cfg": s["cfg"], "steps": [{"ev": st["ev"], "args": st["args"]} for st in s["steps"]]} for s in sc]
     scripts.append(REPRO_F2)
     scripts.append(REPRO_F17)
+    scripts.append(REG_RESTART)
     with open(os.path.join(wd, "scripts.json"), "w") as fh:
         json.dump(scripts, fh)
     nrandom = 80 if quick else 1500
@@ -223,7 +262,8 @@ def run(c):
     # thin (a broken tree may make every later message fail); without one, a thin run is exit 2.
     floors = [("liquidate_ok", 100), ("liquidate_other_ok", 20), ("transfer_ok", 20), ("redeem_partial_ok", 50),
               ("redeem_full_ok", 30), ("splits_ok", 6000), ("splits_with_residue", 1000), ("splits_rejected", 500),
-              ("helper_lines", 500)]
+              ("helper_lines", 500), ("restarts_with_gap", 5), ("redeem_after_restart_with_gap", 5),
+              ("redeem_into_shorter_lived", 5)]
     thin = ["%s = %d < %d" % (k, cov[k], n) for k, n in floors if cov[k] < n]
     classes = {k: n for k, n in res["stats"]["redeems"].items() if k != "none"}
     classes["both-running"] = cov["redeem_into"].get("both-running", 0)
@@ -242,7 +282,8 @@ def run(c):
         "TLC and the BigNum Java override (java/BigNum.java) are trusted",
         "the projection in harness/liquidvesting.go reads the real stores (bank balances and supply, ERC20 balanceOf, liquidvesting Denom records, auth accounts)",
         "messages are executed through MsgServiceRouter handlers on a cached context (as baseapp.runMsgs does) with scripted block times, not through full DeliverTx",
-        "what an account may spend is derived from its recorded schedules through the denotation of specs/Schedule.tla (locked = original vesting - min(unlocked, vested)); recipients have no delegations",
+        "what an account may spend is derived from its recorded schedules and end time (locked = original vesting - min(unlocked, vested), everything released from the recorded end time on) and, for the recipient of a redeem, also read from the account object's own LockedCoins(time); recipients have no delegations",
+        "a restart is the liquidvesting module's ExportGenesis -> JSON -> Validate -> wiped module store -> InitGenesis on the same application (bank, erc20 and auth state stay), not an application-level export and InitChain",
         "exhaustive model checking is bounded by the constants in specs/LiquidVesting_*.cfg",
     ]
 
